@@ -187,7 +187,7 @@ func validateAggregationMethod(aggMethod AggregationMethod) error {
 }
 
 func validateXFilesFactor(xFilesFactor float32) error {
-	if xFilesFactor < 0 || 1 < xFilesFactor {
+	if !(0 <= xFilesFactor && xFilesFactor <= 1) {
 		return errors.New("invalid XFilesFactor")
 	}
 	return nil
